@@ -21,6 +21,7 @@ fn main() {
         "C17" => main_for::<props::files::C17>(rest),
         "C19" => main_for::<props::process::C19>(rest),
         "C02" => main_for::<props::shm::C02>(rest),
+        "C02-DFS" => props::shm::dfs_child(rest),
         "C03" => main_for::<props::shm::C03>(rest),
         "C04" => main_for::<props::shm::C04>(rest),
         "C11" => main_for::<props::shm::C11>(rest),
